@@ -1924,17 +1924,28 @@ class _BulkORMUpdate(_BulkUDCompileState, UpdateDMLState):
             # only run eval for attributes that are present.  evaluate
             # all SET expressions against the pre-UPDATE values before
             # assigning any of them, as the database does.
-            dict_.update(
-                {
-                    key: value_evaluators[key](obj)
-                    for key in to_evaluate
-                    if key in dict_
-                }
-            )
+            evaluated = {
+                key: value_evaluators[key](obj)
+                for key in to_evaluate
+                if key in dict_
+            }
+            # an expression that refers to an expired attribute can't
+            # be evaluated; expire the target attribute as well
+            not_evaluated = {
+                key
+                for key, value in evaluated.items()
+                if value is evaluator._EXPIRED_OBJECT
+            }
+            for key in not_evaluated:
+                del evaluated[key]
+            dict_.update(evaluated)
 
             state.manager.dispatch.refresh(state, None, to_evaluate)
 
             state._commit(dict_, list(to_evaluate))
+
+            if not_evaluated:
+                state._expire_attributes(dict_, not_evaluated)
 
             # attributes that were formerly modified instead get expired.
             # this only gets hit if the session had pending changes
